@@ -176,6 +176,11 @@ func drawConfig(profile string, tier string, r *Rand) Config {
 		}
 		c.Weights[k] = v
 	}
+	// drawn last so that older seeds keep the rest of their configuration
+	if r.Chance(0.35) {
+		c.ELMaxOps = []int{40, 120}[r.Intn(2)]
+		c.Bursts = true
+	}
 	if c.FaultFree {
 		c.Weights["el.adversarial"] = 0
 		for _, k := range []string{"rel.forged", "rel.replay", "rel.baddeposit", "rel.badwithdraw", "probe.fuzztx", "probe.fuzzproposal"} {
